@@ -182,12 +182,18 @@ def one_case(V, E, X, rot=None):
             if r2[0] != 'ok' or gset(r2[1]) != obs['sub'][1]:
                 forms_bad.append('get_subgraph(%s): %s' % (form, r2[1] if r2[0] != 'ok' else gset(r2[1])))
     # collections G itself hands out: nodes() (a live view of G's own dictionary) and sources() (a generator over it)
-    want_all = (sorted(G._next), sorted((a, b) for a, ds in G._next.items() for b in ds))
+    try:
+        want_all = (sorted(G._next), sorted((a, b) for a, ds in G._next.items() for b in ds))
+    except TypeError:
+        # an earlier operation (or the pollution of one of its results by the caller) reached G's own dictionary / successor sets
+        forms_bad.append('G now holds values of the caller\'s pollution (%r): a result shares a successor set with G' %
+                         sorted(set(repr(b) for ds in G._next.values() for b in ds if not isinstance(b, int)))[:3])
+        want_all = ([], [])
     srcs = set(a for a, ds in G._next.items() if ds)
-    for what, fn, want in (('get_reachable_set_from(G.nodes())', lambda: sorted(G.get_reachable_set_from(G.nodes())), want_all[0]),
+    for what, fn, want in (() if want_all == ([], []) and G._next else (('get_reachable_set_from(G.nodes())', lambda: sorted(G.get_reachable_set_from(G.nodes())), want_all[0]),
                            ('get_subgraph(G.nodes())', lambda: gset(G.get_subgraph(G.nodes())), want_all),
                            ('get_subgraph(G.sources())', lambda: gset(G.get_subgraph(G.sources())),
-                            (sorted(srcs), [(a, b) for a, b in want_all[1] if a in srcs and b in srcs]))):
+                            (sorted(srcs), [(a, b) for a, b in want_all[1] if a in srcs and b in srcs])))):
         q = qcall(fn)
         if tuple(q) != ('ok', want):
             forms_bad.append('%s gives %s, expected %s' % (what, q[1], want))
